@@ -39,6 +39,7 @@ fn main() {
     match cmd.as_str() {
         "hist" => work::hist(&a, &mut rep),
         "sets" => sets::sets(&a, &mut rep),
+        "setfault" => sets::setfault(&a, &mut rep),
         "ladder" => sweep::ladder(&a, &mut rep),
         "sweep" => sweep::sweep(&a, &mut rep),
         "prefix" => sweep::prefix_probe(&a, &mut rep),
